@@ -174,6 +174,10 @@ def shard_single_shape(res, scratch, spec):
                     for by_chrom in (True, False):
                         for root, flip in ((0, False), (5, True), (None, False)):
                             judge(res, scratch, g, comps, req, by_chrom, root, flip, f"[{shape} at {[allnames[i] for i in badset]}] --chromosome_order {req}{' --by-chrom' if by_chrom else ''}")
+                        # the same graph as it looks after an earlier order_gfa run (every S line carries BO/NO already)
+                        judge(res, scratch, oc.stale_tagged(g), comps, req, by_chrom, None, False,
+                              f"[{shape} at {[allnames[i] for i in badset]}, input already carries BO/NO tags] --chromosome_order {req}{' --by-chrom' if by_chrom else ''}")
+                        res.count("runs_on_already_tagged_input")
     res.sample({"shape": shape, "chromosomes": nchrom, "example_request": "chr2,chr1"})
 
 
